@@ -29,6 +29,9 @@ func runC03(c *core.Ctx) {
 	// what a follower restores from is labelled with the snapshot's own index and term
 	h.snapshotFallback("C03.8 snapshot-fallback")
 	h.installCommitsWhatItKeeps("C03.9 install-commit")
+	c.Clause("C03.10 what a leader hands to its state machine is on its own disk first (a restart would otherwise feed a different command at that position)")
+	h.leaderFlushBeforeAdvance("C03.10 leader-flush")
+	h.openStorageRebuild("C03.11 restart-rebuild")
 }
 
 func runC07(c *core.Ctx) {
@@ -51,4 +54,7 @@ func runC07(c *core.Ctx) {
 	// success is reported once a majority stored the entry: matchIndex rises only by what the follower acknowledged
 	h.matchIndexOnlyOnSuccess("C07.8 matchIndex")
 	h.majorityOverVoters("C07.8b majority")
+	c.Clause("C07.9 a completed task shows its outcome: the result is stored before done is closed; the flush that precedes every acknowledgement covers the index it is asked for")
+	h.taskReplyPublishes("C07.9 task-reply")
+	h.leaderFlushBeforeAdvance("C07.10 leader-flush")
 }
